@@ -566,6 +566,88 @@ func (g *SessGen) Select() Step {
 	return st
 }
 
+// AppEncryptedInsert generates a single-row INSERT in which the value for one configured bytea column arrives already
+// encrypted by the application (enc returns the container for a plaintext: AcraWriter / AcraTranslator output). Acra gets
+// the container, the reference database the plaintext. ok is false when no table has a suitable column.
+func (g *SessGen) AppEncryptedInsert(enc func(c ColSpec, plain []byte) []byte, want func(ColSpec) bool) (Step, bool) {
+	r := g.R
+	type tc struct {
+		t TableSpec
+		c ColSpec
+	}
+	var cands []tc
+	for _, t := range g.Tables {
+		for _, c := range t.Cols[1:] {
+			if c.Configured() && c.AppType == fakepg.Bytea && c.StoreType == fakepg.Bytea && c.ClientID == "" && want(c) {
+				cands = append(cands, tc{t, c})
+			}
+		}
+	}
+	if len(cands) == 0 {
+		return Step{}, false
+	}
+	x := cands[r.Intn(len(cands))]
+	t, c := x.t, x.c
+	var v Val
+	for i := 0; i < 8; i++ {
+		v = g.colVal(t, c)
+		if !v.Null && len(v.B) > 0 {
+			break
+		}
+	}
+	if v.Null || len(v.B) == 0 {
+		return Step{}, false
+	}
+	container := enc(c, append([]byte{}, v.B...))
+	if container == nil {
+		return Step{}, false
+	}
+	cv := Val{Type: fakepg.Bytea, B: container}
+	g.nextID[t.Name]++
+	id := g.nextID[t.Name]
+	g.IDs[t.Name] = append(g.IDs[t.Name], id)
+	idv := Val{Type: fakepg.Int4, I: int64(id)}
+	st := Step{Kind: "insert", Table: t.Name, Tag: "app-encrypted-value"}
+	st.Writes = append(st.Writes, Written{t.Name, c.Name, v})
+	if c.Kind == "search" {
+		k := t.Name + "." + c.Name
+		g.SearchVals[k] = append(g.SearchVals[k], v)
+	}
+	head := "insert into " + t.Name + " (id, " + c.Name + ") values ("
+	pb := v.B
+	if len(pb) > 48 {
+		pb = pb[:48]
+	}
+	st.ParamDesc = []string{fmt.Sprintf("%s(app-encrypted plaintext):%x", c.Name, pb)}
+	st.ResFmt = "text"
+	if g.SimpleOnly || r.Intn(2) == 0 {
+		st.Proto, st.ParamFmt = "simple", "none"
+		st.SQL = head + idv.Literal(0, false) + ", " + cv.Literal(0, false) + ")"
+		st.Groups = [][]pgproto3.FrontendMessage{{&pgproto3.Query{String: st.SQL}}}
+		st.RefGroups = [][]pgproto3.FrontendMessage{{&pgproto3.Query{String: head + idv.Literal(0, false) + ", " + v.Literal(0, false) + ")"}}}
+		return st, true
+	}
+	st.Proto = "extended-no-describe"
+	st.SQL = head + "$1, $2)"
+	bin := r.Intn(2) == 0
+	st.ParamFmt = "text"
+	pf := []int16{0, 0}
+	if bin {
+		st.ParamFmt = "mixed"
+		pf = []int16{0, 1}
+	}
+	mk := func(val Val) [][]pgproto3.FrontendMessage {
+		return [][]pgproto3.FrontendMessage{{
+			&pgproto3.Parse{Query: st.SQL},
+			&pgproto3.Bind{ParameterFormatCodes: pf, Parameters: [][]byte{idv.Param(false), val.Param(bin)}},
+			&pgproto3.Execute{}, &pgproto3.Sync{},
+		}}
+	}
+	st.Detail = fmt.Sprintf("paramFormats=%v", pf)
+	st.Groups, st.RefGroups = mk(cv), mk(v)
+	return st, true
+}
+
 // Next draws the next step of a session.
 func (g *SessGen) Next() Step {
 	total := 0
